@@ -29,6 +29,7 @@ type Case struct {
 	Prog wprog.Program `json:"prog"`
 
 	fileLen, nobj, cuts, damages int
+	maxNum                       uint32
 	xrefKind                     string
 }
 
@@ -130,6 +131,11 @@ func checkCase(c *Case) error {
 		return err
 	}
 	c.fileLen, c.nobj, c.xrefKind = len(data), len(exp), f.XRefKind
+	for _, e := range exp {
+		if e.ref.Number() > c.maxNum {
+			c.maxNum = e.ref.Number()
+		}
+	}
 
 	// ---- every truncation offset ----
 	// The cuts are independent of each other; they are spread over a few
@@ -321,12 +327,29 @@ var prop = &vt.Prop[Case]{
 		c := Case{Prog: wprog.Gen(wprog.Opts{MaxActions: 6, MaxData: vt.Scale(1100, 2500), SmallObjects: true, MaxDelta: 100,
 			NoEncryption: true, NoCompressed: true, ForbidHeaders: true}).Draw(t, "prog")}
 		c.Prog.ScrubNames()
+		// Object numbers >= 65536: cheap with a cross-reference stream (the
+		// free rows compress away), and the sequential scan does not depend on
+		// the reader's cross-reference budget (known finding
+		// C02-sparse-xref-stream concerns NewReader only).
+		if c.Prog.Version >= 5 && !c.Prog.HumanReadable && rapid.IntRange(0, 3).Draw(t, "high") == 0 {
+			for i := range c.Prog.Actions {
+				a := &c.Prog.Actions[i]
+				if a.Op == "put" || a.Op == "stream" || a.Op == "putstream" {
+					a.RefKind = "explicit"
+					a.Delta = rapid.SampledFrom([]uint32{65500, 66000, 70000}).Draw(t, "highdelta")
+					break
+				}
+			}
+		}
 		return c
 	},
 	Check: checkCase,
 	Classify: func(c *Case) (bool, []string) {
 		cls := c.Prog.Classes(nil)
 		cls = append(cls, "xref:"+c.xrefKind)
+		if c.maxNum >= 65536 {
+			cls = append(cls, "object-number>=65536")
+		}
 		return c.nobj >= 4 && c.fileLen >= 400, cls
 	},
 	Render: func(c *Case) any {
